@@ -1482,7 +1482,7 @@ impl BufferParser for Parser {
 /// Macros may invoke macros (even themselves): limit the nesting depth and the number of
 /// characters one invocation can expand to (including the characters a REP in the macro repeats).
 const MAX_MACRO_NESTING: usize = 16;
-const MAX_MACRO_EXPANSION: usize = 0x1_0000;
+pub(super) const MAX_MACRO_EXPANSION: usize = 0x1_0000;
 
 impl Parser {
     fn invoke_macro_by_id(&mut self, buf: &mut Buffer, current_layer: usize, caret: &mut Caret, id: i32) {
